@@ -450,7 +450,9 @@ impl Encoder {
             ast::FieldDesc::Count { field_id, width, .. } => {
                 let field_name = field_id.to_ident();
                 let field_type = types::Integer::new(*width);
-                if field_type.width > *width {
+                // The element count is a usize: it must be checked against the
+                // count field width unless the field is as wide as usize itself.
+                if *width < 64 {
                     let packet_name = &self.packet_name;
                     let max_value = mask_bits(*width, "usize");
                     self.tokens.extend(quote! {
